@@ -18,11 +18,14 @@
  *   .vctl    : control file (not part of the manifest): lines "TAG KIND" with KIND in
  *                fail-before   exit 1 before writing anything
  *                fail-after    write all outputs (and the depfile), then exit 1
+ *                term-after    write all outputs, then die of SIGTERM together with the shell that runs
+ *                              the command line (the process the build tool waits for)
  * Exit codes: 0 ok, 1 deliberate/IO failure, 2 usage.
  */
 #define _GNU_SOURCE
 #include <errno.h>
 #include <fcntl.h>
+#include <signal.h>
 #include <stdio.h>
 #include <stdlib.h>
 #include <string.h>
@@ -141,10 +144,11 @@ int main(int argc, char** argv) {
   }
 
   const char* kind = control(tag);
-  int fail_after = 0;
+  int fail_after = 0, term_after = 0;
   if (kind) {
     if (!strcmp(kind, "fail-before")) { dprintf(2, "ncmd: %s: directed failure\n", tag); return 1; }
     if (!strcmp(kind, "fail-after")) fail_after = 1;
+    if (!strcmp(kind, "term-after")) term_after = 1;
   }
 
   struct buf payload = {0};
@@ -180,5 +184,18 @@ int main(int argc, char** argv) {
   }
 
   if (fail_after) { dprintf(2, "ncmd: %s: directed failure after writing outputs\n", tag); return 1; }
+  if (term_after) {
+    /* /bin/sh -c does not exec its last command here, so the process the build tool waits for is the shell */
+    char path[64], comm[32] = {0};
+    pid_t pp = getppid();
+    snprintf(path, sizeof path, "/proc/%d/comm", (int)pp);
+    int fd = open(path, O_RDONLY);
+    if (fd >= 0) { if (read(fd, comm, sizeof comm - 1) < 0) comm[0] = 0; close(fd); }
+    dprintf(2, "ncmd: %s: directed death by SIGTERM after writing outputs\n", tag);
+    if (!strncmp(comm, "sh", 2) || !strncmp(comm, "dash", 4)) kill(pp, SIGTERM);
+    signal(SIGTERM, SIG_DFL);
+    raise(SIGTERM);
+    pause();
+  }
   return 0;
 }
